@@ -450,6 +450,50 @@ fn perm_sources(args: &[String]) {
                                      "mods": [{"name": "perm.pn", "src": src}]})).unwrap();
         }
     }
+    // every containment CYCLE of 2..5 declarations (structures only, constants only, alternating) in EVERY declaration order:
+    // whatever the order, the compilation ends in a failure with a diagnostic
+    fn orders(n: usize) -> Vec<Vec<usize>> {
+        fn go(cur: &mut Vec<usize>, used: &mut Vec<bool>, out: &mut Vec<Vec<usize>>) {
+            if cur.len() == used.len() {
+                out.push(cur.clone());
+                return;
+            }
+            for i in 0..used.len() {
+                if !used[i] {
+                    used[i] = true;
+                    cur.push(i);
+                    go(cur, used, out);
+                    cur.pop();
+                    used[i] = false;
+                }
+            }
+        }
+        let mut out = Vec::new();
+        go(&mut Vec::new(), &mut vec![false; n], &mut out);
+        out
+    }
+    for n in 2..=5usize {
+        for flavour in ["structs", "constants", "mixed"] {
+            // declaration i depends on declaration (i + 1) % n
+            let decl = |i: usize| -> String {
+                let j = (i + 1) % n;
+                let is_struct = |k: usize| flavour == "structs" || (flavour == "mixed" && k % 2 == 0);
+                match (is_struct(i), is_struct(j)) {
+                    (true, true) => format!("struct Cy{i}\n{{\n\tinner: Cy{j},\n\ttag: u8,\n}}\n"),
+                    (true, false) => format!("struct Cy{i}\n{{\n\tdata: [CY{j}]u8,\n}}\n"),
+                    (false, true) => format!("const CY{i}: usize = |:Cy{j}| + 1;\n"),
+                    (false, false) => format!("const CY{i}: usize = CY{j} + 1;\n"),
+                }
+            };
+            for (k, order) in orders(n).iter().enumerate() {
+                let mut src: String = order.iter().map(|&i| decl(i)).collect::<Vec<_>>().join("\n");
+                src.push_str("\nfn main() -> i32\n{\n\treturn: 0\n}\n");
+                writeln!(f, "{}", json!({"id": format!("xcycle-{flavour}-{n}-{k}"), "kind": "xcycle", "wasm": false,
+                                         "origin": format!("cycle of {n} {flavour} order {order:?}"),
+                                         "mods": [{"name": "cycle.pn", "src": src}]})).unwrap();
+            }
+        }
+    }
     // the container graphs of C11 (constants and structures that contain each other, cyclic ones included, in a random
     // declaration order): twice as many as programs
     for i in 0..2 * count {
